@@ -79,6 +79,28 @@ def prespawn_scripts(rng, tier):
         sf = len(lines)
         lines += gen_scripts.settle_lines(meta)
         out.append(("prespawn-early-%d" % i, lines, sf))
+    # a pre-spawned entity that was adopted for one server entity is named again by a mapping for ANOTHER server entity in the tick
+    # in which the first one is despawned / hidden / un-replicated: the message's despawn record kills the client entity before its
+    # mappings are applied, so the second server entity must get a fresh entity
+    for i in range(n // 3):
+        pol = rng.choice(["all", "black", "black"])
+        nclients = rng.choice([1, 2])
+        lines = ["cfg policy=%s auth=none track=0 nclients=%d timeout=10000" % (pol, nclients), "start", "sframe 0 10"]
+        for c in range(nclients):
+            lines.append("connect %d 1200" % c)
+        lines += ["cop 0 prespawn 0", "cframe 0", "sop spawn 1 1 0=%d" % rng.randrange(50), "sop map 0 1 0", "sframe 1 16", "deliver 0 s2c 0 all", "cframe 0", "deliver 0 c2s 0 all"]
+        lines.append(rng.choice(["sop despawn 1", "sop unmark 1"] + (["sop vis 0 1 0"] if pol == "black" else [])))
+        lines += ["sop spawn 2 1 0=%d 1=%d" % (rng.randrange(50), rng.randrange(50)), "sop map 0 2 0"]
+        if rng.random() < 0.3:
+            lines.append("sframe 0 5")
+        lines += ["sframe 1 16", "deliver 0 s2c 0 all", "cframe 0", "deliver 0 c2s 0 all"]
+        for _ in range(rng.randrange(1, 4)):
+            lines.append("sop mutate 2 %d=%d" % (rng.randrange(2), rng.randrange(100, 200)))
+            lines.append("sframe 1 16")
+        meta = dict(connected=list(range(nclients)), events=False)
+        sf = len(lines)
+        lines += gen_scripts.settle_lines(meta)
+        out.append(("prespawn-reused-%d" % i, lines, sf))
     # the server entity was referenced by a component before it became visible (the client holds a placeholder for it) and is
     # then mapped to a pre-spawned entity in the tick it becomes visible.  This is the class of the open finding D17 (the
     # placeholder is orphaned, C01); the adoption itself must still work: judged by the C16 oracle only.
